@@ -620,6 +620,10 @@ inductive Event where
   | start (tid : Nat)
   /-- SetLockingState / SetThreadPool after a VisitState returned -/
   | setRefs
+  /-- only SetLockingState has run (SetThreadPool is the next statement of baseRuntime.Eval) -/
+  | setLockingState
+  /-- StopThreads: every waiting thread is told to end (command Kill) and released -/
+  | stopThreads
   /-- RecordSource -/
   | source (src : Str)
   /-- the thread ran (any number of VisitState / VisitStepInState / VisitStepOutState) and is
@@ -649,6 +653,9 @@ def applyEvent (s : DbgState) : Event → Option DbgState
     else some { s with stacks := put tid [] s.stacks }
   | .setRefs => some { s with ownersSet := true, mutexLogSet := true, threadPoolSet := true }
   | .setGlobals names => some { s with globals := names }
+  | .setLockingState => some { s with ownersSet := true, mutexLogSet := true }
+  | .stopThreads =>
+    some { s with istates := s.istates.map fun p => if p.2.running then p else (p.1, { p.2 with running := true, cmd := .kill }) }
   | .source src => some { s with sources := if s.sources.contains src then s.sources else src :: s.sources }
   | .advance tid depth w =>
     if (s.stacks.lookup tid).isNone || isSuspended s tid then none
